@@ -96,6 +96,28 @@ def run(F, R):
                     okd = True
                 if br and name == "check_max_directives":
                     okm = True
+    # ... and on every path to the parsed document, whether it was parsed here or handed in pre-parsed (Request::set_parsed_query, persisted queries)
+    for b in parse_stage:
+        rdc = b.calls_to(SCH + "::check_recursive_depth$")
+        mdc = b.calls_to(SCH + "::check_max_directives$")
+        if not (rdc or mdc):
+            continue
+        oks = [a[0] for a in find_aggs(b, r"core::result::Result$") if a[1][3] == "Ok" and a[1][5]]
+        skip_rd = [o for o in oks if o in b.reachable(0, avoid=[c.bb for c in rdc])]
+        R.check(bool(oks) and not skip_rd, "R10.2", "parse-stage:recursion-limit-on-every-path-to-Ok(doc)", b.where(), "every path to Ok(doc) calls check_recursive_depth",
+                "Ok(doc) is reachable without check_recursive_depth (e.g. for a request that carries a pre-parsed document): the nesting limit is not applied to it")
+        none_arms = []
+        for (sbb, place, adt, arms, other, vmap) in b.enum_switches(r"core::option::Option$"):
+            nm = b.local_name(place[0]) if place else None
+            if nm == "max_directives" or ".^max_directives" in place or any(k == "upvar" and x == "max_directives" for k, x in trace(b, ["c", [place[0]]])[0]):
+                if arms.get("None") is not None:
+                    none_arms.append(arms["None"])
+                elif other is not None:
+                    none_arms.append(other)
+        skip_md = [o for o in oks if o in b.reachable(0, avoid=[c.bb for c in mdc] + none_arms)]
+        R.check(bool(oks) and bool(none_arms) and not skip_md, "R10.2", "parse-stage:directive-limit-on-every-path-to-Ok(doc)", b.where(),
+                "with a configured limit every path to Ok(doc) calls check_max_directives",
+                "Ok(doc) is reachable with a directive limit configured but without check_max_directives")
     R.check(okd, "R10.2", "prepare_request:recursion-limit-enforced", "-", "check_recursive_depth(..)? in the parse stage", "recursion limit not enforced before validation")
     R.check(okm, "R10.2", "prepare_request:directive-limit-enforced", "-", "check_max_directives(..)? in the parse stage", "directive limit not enforced")
 
@@ -104,6 +126,47 @@ def run(F, R):
         m = F.method(r"validation::visitors::" + ty, "mode")
         ok = len(m) == 1 and {a[1][3] for a in find_aggs(m[0], r"visitor::VisitMode$")} == {"Inline"}
         R.check(ok, "R10.3", "mode-inline:" + ty.split("::")[-1], m[0].where() if m else "-", "returns VisitMode::Inline", "calculator is not an Inline visitor")
+    # the *composed* visitor must run Inline too: VisitorCons::mode() answers with its head (the last `.with(..)`), so every composition passed to
+    # visit() that contains a calculator must be headed by an Inline visitor
+    cr = F.one(r"async_graphql::validation::check_rules$", kind="fn")
+    ncomp = 0
+    cons_mode = F.method(r"validation::visitor::VisitorCons<", "mode")
+    head_field = None
+    if cons_mode:
+        for c in cons_mode[0].calls():
+            if (c.declared or "").endswith("Visitor::mode") and c.args and c.args[0][0] in ("c", "m"):
+                o, _ = trace(cons_mode[0], c.args[0])
+                head_field = ".0" if any(k == "field" and ".0" in x for k, x in o) or ".0" in str(cons_mode[0].defs_of_local(c.args[0][1][0])) else ".1"
+    for c in cr.calls():
+        if not (c.callee and c.callee.endswith("validation::visitor::visit")):
+            continue
+        g = [x for x in c.generics if "VisitorCons<" in x]
+        if not g or not re.search(r"visitors::(depth|complexity|cache_control)::", g[0]):
+            continue
+        ncomp += 1
+        inner = g[0][g[0].index("VisitorCons<") + len("VisitorCons<"):]
+        depth_, parts, cur = 0, [], ""
+        for ch in inner:
+            if ch == "<":
+                depth_ += 1
+            elif ch == ">":
+                if depth_ == 0:
+                    break
+                depth_ -= 1
+            if ch == "," and depth_ == 0:
+                parts.append(cur.strip())
+                cur = ""
+            else:
+                cur += ch
+        parts.append(cur.strip())
+        head = parts[0] if head_field != ".1" else parts[-1]
+        hname = re.sub(r"<.*", "", head)
+        hm = F.method(re.escape(hname) + r"\b", "mode")
+        inline = len(hm) == 1 and {a[1][3] for a in find_aggs(hm[0], r"visitor::VisitMode$")} == {"Inline"}
+        R.check(inline, "R10.3", "composed-visitor-runs-inline:%d" % ncomp, c.where(), "head of the composition is %s (Inline)" % hname.split("::")[-1],
+                "the visitor composition that contains the limit calculators is headed by %s, whose mode() is not Inline: VisitorCons::mode() takes the head's mode, so the whole "
+                "pass runs in Normal mode and fragment spreads are not expanded — depth and complexity through named fragments are under-counted" % hname.split("::")[-1])
+    R.floor("R10.3", "visitor compositions containing calculators", ncomp, 2)
     ef = F.one_method(r"validation::visitors::complexity::ComplexityCalculate", "exit_field")
     adds = [s for bb, s in ef.all_stmts() if s[1][0] == "bin" and s[1][1] in ("Add", "AddWithOverflow")]
     one_plus = [s for s in adds if const_eval(ef, s[1][2]) == 1 or const_eval(ef, s[1][3]) == 1]
